@@ -56,6 +56,7 @@ def kStep (st : KState) (x : Nat × List String × List String) : KState :=
                     spawned := kvGet kv "spawned" == some "1" }
     { st with m := register st.m s }
   | ["ctl", "crash", i] => { st with m := crash st.m (i.toNat?.getD 0) }
+  | ["ctl", "bounce", i] => { st with m := bounce st.m (i.toNat?.getD 0) }
   | ["ctl", "run"] =>
     let amb := runAmb (st.m.duration / st.m.tick + 4) st.m
     let (m', r) := run st.m
@@ -65,7 +66,8 @@ def kStep (st : KState) (x : Nat × List String × List String) : KState :=
   | ["ctl", "stepn", n] =>
     let (m', acc, amb) := stepnLoop (n.toNat?.getD 0) st.m [] false
     let want := s!"stepn {",".intercalate acc}"
-    let st' := { st with m := m', dead := true }
+    let ended := match acc.getLast? with | some r => r != "t" && r != "f" | none => false
+    let st' := { st with m := m', dead := ended }
     if got == want || amb then st' else fail st' want
   | _ => st
 
@@ -149,6 +151,8 @@ def oStep (st : OState) (x : Nat × List String × List String) : OState :=
                                   spawned := kvGet kv "spawned" == some "1", regStep := st.steps }] }
   | ["ctl", "crash", i] =>
     { st with sws := st.sws.mapIdx (fun j s => if j == i.toNat?.getD 0 then { s with crashed := true } else s) }
+  | ["ctl", "bounce", i] =>
+    { st with sws := st.sws.mapIdx (fun j s => if j == i.toNat?.getD 0 then { s with crashed := false, regStep := st.steps } else s) }
   | ["ctl", "run"] =>
     match obs with
     | ["run", "ok", k] =>
@@ -181,7 +185,9 @@ def oStep (st : OState) (x : Nat × List String × List String) : OState :=
         else if r == "software" then (judge st ln "software" stepNo, i + 1, seenT)
         else if r == "timeout" then (judge st ln "timeout" stepNo, i + 1, seenT)
         else (judge st ln "panic" stepNo, i + 1, seenT)) (st, 0, false)
-      { st with dead := true }
+      let completed := (rs.filter (fun r => r == "t" || r == "f")).length
+      let ended := match rs.getLast? with | some r => r != "t" && r != "f" | none => false
+      { st with dead := ended, steps := st.steps + completed }
     | _ => st
   | _ => st
 
